@@ -17,7 +17,8 @@ fn bits_json(b: &[bool]) -> Value {
     Value::Array(b.iter().map(|&x| json!(x as u8)).collect())
 }
 
-/// three ways to build the same BitVec<u8> (fill-false + set, fill-true + clear, push)
+/// five ways to build the same BitVec<u8> (fill-false + set, fill-true + clear, push,
+/// longer vector truncated, pushed ones popped again)
 fn build(bits: &[bool], ctor: u32) -> BitVec<u8> {
     let n = bits.len() as u64;
     match ctor {
@@ -39,10 +40,38 @@ fn build(bits: &[bool], ctor: u32) -> BitVec<u8> {
             }
             v
         }
-        _ => {
+        2 => {
             let mut v: BitVec<u8> = BitVec::new();
             for &b in bits {
                 v.push(b);
+            }
+            v
+        }
+        3 => {
+            // a longer vector with ones behind position n, shortened by truncate: the storage keeps
+            // stale one bits behind the end (same byte and following bytes)
+            let extra = (n * 7 + 3) % 12 + 1;
+            let mut v: BitVec<u8> = BitVec::new_fill(true, n + extra);
+            for (i, &b) in bits.iter().enumerate() {
+                if !b {
+                    v.set_bit(i as u64, false);
+                }
+            }
+            v.truncate(n);
+            v
+        }
+        _ => {
+            // pushed ones popped again: stale one bits behind the end
+            let extra = (n * 5 + 1) % 9 + 1;
+            let mut v: BitVec<u8> = BitVec::new();
+            for &b in bits {
+                v.push(b);
+            }
+            for _ in 0..extra {
+                v.push(true);
+            }
+            for _ in 0..extra {
+                v.pop();
             }
             v
         }
@@ -100,6 +129,13 @@ fn run_one(log: &mut Log, tag: &str, bits: &[bool], k: usize, ctor: u32) {
     }
     if ctor == 1 {
         log.oblige("ctor_fill_true");
+        if n % 8 != 0 {
+            // raw last byte has one bits in its padding; select_1(total ones + 1) must not find them
+            log.oblige("fill_true_with_padded_last_byte");
+        }
+    }
+    if (ctor == 3 || ctor == 4) && n % 8 != 0 {
+        log.oblige("stale_ones_behind_end_after_truncate_or_pop");
     }
 
     let mut rs: Option<RankSelect> = None;
@@ -195,7 +231,7 @@ pub fn drive(log: &mut Log) {
                 let mut rng = Rng::new(seed, 17, case);
                 let which = if thorough { rep } else { (n as u64 + rep * 3 + seed) % NFILL };
                 let bits = fill(&mut rng, n, 32 * k, which);
-                run_one(log, "sm", &bits, k, (case % 3) as u32);
+                run_one(log, "sm", &bits, k, (case % 5) as u32);
             }
         }
     }
@@ -217,7 +253,7 @@ pub fn drive(log: &mut Log) {
                     let mut rng = Rng::new(seed, 18, case);
                     let which = if thorough { rep } else { ((d + 9) as u64 + rep * 3 + seed + mult as u64) % NFILL };
                     let bits = fill(&mut rng, n, 32 * k, which);
-                    run_one(log, "bd", &bits, k, (case % 3) as u32);
+                    run_one(log, "bd", &bits, k, (case % 5) as u32);
                 }
             }
         }
@@ -234,7 +270,7 @@ pub fn drive(log: &mut Log) {
             if n < 32 * k {
                 log.oblige("k_larger_than_vector");
             }
-            run_one(log, "lg", &bits, k, (case % 3) as u32);
+            run_one(log, "lg", &bits, k, (case % 5) as u32);
         }
     }
 }
